@@ -14,41 +14,62 @@ Theorem C18_pad_amount_least : forall h n, 0 <= n ->
   (forall m, m mod 2 ^ n = 0 -> h <= m -> h + pad_amount h n <= m).
 Proof. exact pad_multiple. Qed.
 
-(* whenever a result is returned, height and width are multiples of 2^n *)
-Theorem C18_pad_multiple : forall (V : Type) h w n (img : Z -> Z -> V) H W f, 0 <= n ->
-  pad_image_for_pyramid h w n img = Some ((H, W), f) ->
+(* The property's clauses hold for ANY padding that appends rows below and columns to the right, whatever it
+   writes into the added border (reflection, replication, zeros, ...): multiples of 2^n (the least ones), *)
+Theorem C18_pad_any_border_multiple : forall (V : Type) (border : Z -> Z -> V) h w n img, 0 <= n ->
+  let '((H, W), _) := pad_generic border h w n img in
+  H mod 2 ^ n = 0 /\ W mod 2 ^ n = 0 /\ h <= H < h + 2 ^ n /\ w <= W < w + 2 ^ n.
+Proof. exact @generic_multiple. Qed.
+(* ... original pixels intact at their original positions, *)
+Theorem C18_pad_any_border_keeps_origin : forall (V : Type) (border : Z -> Z -> V) h w n img,
+  forall i j, 0 <= i < h -> 0 <= j < w -> snd (pad_generic border h w n img) i j = img i j.
+Proof. exact @generic_keeps_origin. Qed.
+(* ... images that already fit are returned unchanged. *)
+Theorem C18_pad_any_border_noop : forall (V : Type) (border : Z -> Z -> V) h w n img, 0 <= n ->
+  h mod 2 ^ n = 0 -> w mod 2 ^ n = 0 -> pad_generic border h w n img = ((h, w), img).
+Proof. exact @generic_noop. Qed.
+
+(* The code (F.pad with (0, dw, 0, dh); reflect, or replicate where a side is too short to reflect) is such a
+   padding, for every image size: *)
+Theorem C18_pad_code_is_generic : forall (V : Type) h w n (img : Z -> Z -> V),
+  fst (pad_image_for_pyramid h w n img) = fst (pad_generic (snd (pad_image_for_pyramid h w n img)) h w n img) /\
+  forall i j, 0 <= i -> 0 <= j ->
+    snd (pad_image_for_pyramid h w n img) i j = snd (pad_generic (snd (pad_image_for_pyramid h w n img)) h w n img) i j.
+Proof. exact @code_is_generic. Qed.
+Theorem C18_pad_multiple : forall (V : Type) h w n (img : Z -> Z -> V), 0 <= n ->
+  let '((H, W), _) := pad_image_for_pyramid h w n img in
   H mod 2 ^ n = 0 /\ W mod 2 ^ n = 0 /\ h <= H < h + 2 ^ n /\ w <= W < w + 2 ^ n.
 Proof. exact @pad_result_multiple. Qed.
-
-(* ... with the original pixels intact at their original positions *)
-Theorem C18_pad_keeps_origin : forall (V : Type) h w n (img : Z -> Z -> V) S f,
-  pad_image_for_pyramid h w n img = Some (S, f) ->
-  forall i j, 0 <= i < h -> 0 <= j < w -> f i j = img i j.
+Theorem C18_pad_keeps_origin : forall (V : Type) h w n (img : Z -> Z -> V),
+  forall i j, 0 <= i < h -> 0 <= j < w -> snd (pad_image_for_pyramid h w n img) i j = img i j.
 Proof. exact @pad_keeps_origin. Qed.
-
-(* images that already fit are returned unchanged *)
 Theorem C18_pad_noop : forall (V : Type) h w n (img : Z -> Z -> V), 0 <= n ->
-  h mod 2 ^ n = 0 -> w mod 2 ^ n = 0 -> pad_image_for_pyramid h w n img = Some ((h, w), img).
+  h mod 2 ^ n = 0 -> w mod 2 ^ n = 0 -> pad_image_for_pyramid h w n img = ((h, w), img).
 Proof. exact @pad_noop. Qed.
+(* beyond the property: the code's border consists of input pixels only *)
+Theorem C18_pad_values_from_input : forall (V : Type) h w n (img : Z -> Z -> V), 0 <= n -> 1 <= h -> 1 <= w ->
+  let '((H, W), f) := pad_image_for_pyramid h w n img in
+  forall i j, 0 <= i < H -> 0 <= j < W -> exists i' j', 0 <= i' < h /\ 0 <= j' < w /\ f i j = img i' j'.
+Proof. exact @pad_values_from_input. Qed.
+Theorem C18_pad_reflect_mode_iff : forall h w n, 0 <= n -> 1 <= h -> 1 <= w ->
+  (reflect_ok h w n = true <-> 2 ^ n < 2 * h /\ 2 ^ n < 2 * w).
+Proof. exact reflect_ok_iff. Qed.
 
-(* for every image with both sides above 2^(n-1) a result IS returned, of the stated size, and
-   every output pixel is a pixel of the input (reflection) *)
-Theorem C18_pad_defined_partial : forall (V : Type) h w n (img : Z -> Z -> V), 0 <= n -> 1 <= h -> 1 <= w ->
-  2 ^ n < 2 * h -> 2 ^ n < 2 * w ->
-  exists f, pad_image_for_pyramid h w n img = Some ((h + pad_amount h n, w + pad_amount w n), f) /\
-    (forall i j, 0 <= i < h -> 0 <= j < w -> f i j = img i j) /\
-    (forall i j, 0 <= i < h + pad_amount h n -> 0 <= j < w + pad_amount w n ->
-       exists i' j', 0 <= i' < h /\ 0 <= j' < w /\ f i j = img i' j').
-Proof. exact @pad_defined. Qed.
+(* regression for the repaired defect "reflection only": it returned an image exactly for sides above 2^(n-1)
+   (raised otherwise), and the repaired function returns the same image there *)
+Theorem C18_pad_reflect_only_defined_iff : forall (V : Type) h w n (img : Z -> Z -> V), 0 <= n -> 1 <= h -> 1 <= w ->
+  (pad_image_for_pyramid_reflect_only h w n img <> None <-> 2 ^ n < 2 * h /\ 2 ^ n < 2 * w).
+Proof. exact @reflect_only_defined_iff. Qed.
+Theorem C18_pad_reflect_only_agrees : forall (V : Type) h w n (img : Z -> Z -> V) S f,
+  pad_image_for_pyramid_reflect_only h w n img = Some (S, f) ->
+  fst (pad_image_for_pyramid h w n img) = S /\ forall i j, snd (pad_image_for_pyramid h w n img) i j = f i j.
+Proof. exact @reflect_only_agrees. Qed.
+Theorem C18_pad_reflect_only_refuted :
+  pad_image_for_pyramid_reflect_only 1 1 1 (fun _ _ => 7) = None /\
+  fst (pad_image_for_pyramid 1 1 1 (fun _ _ => 7)) = (2, 2) /\ snd (pad_image_for_pyramid 1 1 1 (fun _ _ => 7)) 1 1 = 7.
+Proof. exact reflect_only_raises_witness. Qed.
 
-(* open finding: a result is returned exactly for those images (ReflectionPad2d rejects the rest) *)
-Theorem C18_pad_defined_iff : forall (V : Type) h w n (img : Z -> Z -> V), 0 <= n -> 1 <= h -> 1 <= w ->
-  (pad_image_for_pyramid h w n img <> None <-> 2 ^ n < 2 * h /\ 2 ^ n < 2 * w).
-Proof. exact @pad_defined_iff. Qed.
-Theorem C18_pad_total_refuted : pad_image_for_pyramid 1 1 1 (fun _ _ => 0) = None.
-Proof. exact pad_raises_witness. Qed.
-
-(* regression for the repaired defect: the former tuple (0, 0, dh, dw) *)
+(* regression for the repaired tuple order: the former tuple (0, 0, dh, dw) *)
 Theorem C18_pad_legacy_tuple_refuted :
   match pad_image_for_pyramid_legacy 5 7 2 (fun i j => 10 * i + j) with
   | Some ((H, W), f) => H = 9 /\ W = 7 /\ W mod 2 ^ 2 <> 0 /\ H mod 2 ^ 2 <> 0 /\ f 0 0 = 30 /\ f 3 0 = 0
@@ -146,6 +167,9 @@ Theorem C18_blur_const : forall npix (down up : list Q -> list Q),
   forall c L lods img, (1 <= L)%nat -> length img = npix -> length lods = npix ->
   Forall (fun x => 0 <= x) lods -> Forall (fun v => v == c) img -> Forall (fun v => v == c) (blur down up L lods img).
 Proof. exact blur_image_const. Qed.
+(* NOTE: true by construction of the model (`blur` maps over `lods`): it states that the MODEL is well formed.
+   The property's clause "returns the input's shape" is tied to the code by the oracle clause `shape_kept`
+   and by the B2 blur correspondence (output shape compared on every case), not by this statement. *)
 Theorem C18_blur_shape : forall (down up : list Q -> list Q) L lods img, length (blur down up L lods img) = length lods.
 Proof. exact blur_image_length. Qed.
 (* the gaze pixel (LOD 0) is returned unchanged; with LOD below 1 it moves by at most lod * range *)
@@ -172,14 +196,15 @@ Proof. exact mask_legacy_agrees. Qed.
 End BlurProps.
 
 (* non-vacuity: the contract of C18_blur_range is met by a concrete averaging operator, and the model
-   computes through on a concrete non-square case (pad 5 x 7 for 2 levels; blur of 2 pixels, 2 levels) *)
+   computes through on concrete non-square cases (pad 2 x 3 by reflection, 1 x 2 by replication; blur of 2 and 3 pixels) *)
 Example C18_instance :
   BlendL.in_range (1 # 4) (3 # 4)
     (BlendL.blur (BlendL.first_pixel 2) (BlendL.first_pixel 2) 2 [0; 3 # 2] [1 # 4; 3 # 4])%Q /\
-  Pad.run_pad 2 3 1 [[1; 2; 3]; [4; 5; 6]]%Z = Some ((2, 4), [[1; 2; 3; 2]; [4; 5; 6; 5]])%Z /\
+  Pad.run_pad 2 3 1 [[1; 2; 3]; [4; 5; 6]]%Z = ((2, 4), [[1; 2; 3; 2]; [4; 5; 6; 5]])%Z /\
+  Pad.run_pad 1 2 2 [[1; 2]]%Z = ((4, 4), [[1; 2; 2; 2]; [1; 2; 2; 2]; [1; 2; 2; 2]; [1; 2; 2; 2]])%Z /\
   map Qred (Blur.blur_image [0; 1 # 2; 5 # 2]%Q [[0; 0; 0]; [1; 1; 1]; [2; 2; 2]]%Q) = [0; 1 # 2; 2]%Q.
 Proof.
-  split; [|split; vm_compute; reflexivity].
+  split; [|repeat split; vm_compute; reflexivity].
   apply (BlendL.blur_image_range 2 (BlendL.first_pixel 2) (BlendL.first_pixel 2)).
   - intros a v Hne. apply BlendL.first_pixel_convex. assumption.
   - intros a. apply BlendL.first_pixel_nonempty. auto.
